@@ -231,20 +231,31 @@ class Engine(w_fsa.Engine):
         if new or (len(world.reps) < 3 and rng.random() < 0.3):
             names = list(cfg["gens"]) + (MULTI if cfg["multi"] else [])
             mats = {}
+            dtypes = {}
             for g in names:
                 M, Mi = unimodular(rng, n, cplx)
                 mats[g] = [enc(M), enc(Mi)]
+                dtypes[g] = self._pick_dtype(rng, mats[g][0])
             kind = cfg["repkind"] if not cplx else "plain"
             if kind == "hyperbolic" and n < 2:
                 kind = "plain"
             return {"op": "rep_new", "rep": "r%d" % (len(world.reps) + 1 + world.steps_done * 10),
-                    "kind": kind, "n": n, "mats": mats}
+                    "kind": kind, "n": n, "mats": mats, "dtypes": dtypes}
         r = rng.choice(sorted(world.reps))
         rh = world.reps[r]
         g = rng.choice(sorted(x for x in rh.gens if x == x.lower()))
         M, Mi = unimodular(rng, rh.n, rh.cplx)
         via_inverse = rng.random() < 0.25
-        return {"op": "assign", "rep": r, "g": g, "mat": [enc(M), enc(Mi)], "via_inverse": via_inverse}
+        m = [enc(M), enc(Mi)]
+        return {"op": "assign", "rep": r, "g": g, "mat": m, "via_inverse": via_inverse,
+                "dtype": self._pick_dtype(rng, m[1] if via_inverse else m[0])}
+
+    @staticmethod
+    def _pick_dtype(rng, encoded):
+        """generators of one representation may have different dtypes (exact integer, real, complex)"""
+        if is_complex(encoded):
+            return "complex128"
+        return rng.choice(["float64", "float64", "int64", "complex128"])
 
     def _labels_ok(self, rh, h, edge_words):
         for l in h.labels():
@@ -403,8 +414,16 @@ class Engine(w_fsa.Engine):
         return np.asarray(res)
 
     @staticmethod
-    def _np(Mo, cplx):
-        return np.array(Mo.tolist(), dtype=np.complex128 if cplx else np.float64)
+    def _np(Mo, cplx, dtype=None):
+        if dtype is None:
+            dtype = "complex128" if cplx else "float64"
+        if dtype != "complex128" and any(isinstance(x, complex) and x.imag != 0 for x in Mo.reshape(-1).tolist()):
+            dtype = "complex128"
+        if dtype == "int64":
+            return np.array([[int(complex(x).real) for x in row] for row in Mo.tolist()], dtype=np.int64)
+        if dtype == "float64":
+            return np.array([[complex(x).real for x in row] for row in Mo.tolist()], dtype=np.float64)
+        return np.array(Mo.tolist(), dtype=np.complex128)
 
     def _do_rep_new(self, world, op, vs):
         kind, n = op["kind"], int(op["n"])
@@ -414,7 +433,7 @@ class Engine(w_fsa.Engine):
             gens = {}
             for g in sorted(op["mats"]):
                 M, Mi = dec(op["mats"][g][0]), dec(op["mats"][g][1])
-                rep[g] = self._wrap(kind, self._np(M, cplx))
+                rep[g] = self._wrap(kind, self._np(M, cplx, (op.get("dtypes") or {}).get(g)))
                 gens[g] = M
                 gens[g.upper()] = Mi
         except Exception as e:
@@ -433,9 +452,9 @@ class Engine(w_fsa.Engine):
             return "skipped:shape"
         try:
             if op.get("via_inverse"):
-                rh.real[g.upper()] = self._wrap(rh.kind, self._np(Mi, rh.cplx))
+                rh.real[g.upper()] = self._wrap(rh.kind, self._np(Mi, rh.cplx, op.get("dtype")))
             else:
-                rh.real[g] = self._wrap(rh.kind, self._np(M, rh.cplx))
+                rh.real[g] = self._wrap(rh.kind, self._np(M, rh.cplx, op.get("dtype")))
         except Exception as e:
             vs.append(viol("C06", "E.assign.raised", "re-assigning a generator raised %r" % (e,)))
             return "raised:" + type(e).__name__
